@@ -1,5 +1,6 @@
 """C11 — line numbers in parse trees and errors are the true source lines."""
 import ast
+import copy
 
 from engine import grammar, tables
 from engine import regexlang as RL
@@ -237,6 +238,43 @@ def marked_in_loop(cli, s_all):
     return None
 
 
+def text_reaches_lexer(ctx, idx, rule, consequence):
+    """from_source -> Parser.parse -> PLY: each hop passes its own text parameter on as it is"""
+    hops = [(idx.func("mpilot.program", "Program.from_source"), "from_source -> Parser.parse"), (idx.func("mpilot.parser.parser", "Parser.parse"), "Parser.parse -> PLY parse")]
+    n_hops = 0
+    for fn, what in hops:
+        if fn is None:
+            raise AnalysisError("%s: %s vanished" % (rule, what))
+        params = [a.arg for a in fn.node.args.args]
+        calls = [n for n in own_nodes(fn.node) if isinstance(n, ast.Call) and isinstance(n.func, ast.Attribute) and n.func.attr == "parse" and (n.args or any(k.arg in ("input", "source") for k in n.keywords))]
+        for c in calls:
+            n_hops += 1
+            a0 = c.args[0] if c.args else next(k.value for k in c.keywords if k.arg in ("input", "source"))
+            e = K.expand(fn, a0)
+            con = "%s::text-passed-on-unchanged" % fn.key
+            rebound = [n for n in own_nodes(fn.node) if isinstance(n, ast.Name) and isinstance(n.ctx, ast.Store) and n.id in params]
+            # accepted: the parameter itself; str()/text_type() of it; parameter + constant suffix
+            inner = e
+            if isinstance(inner, ast.Call) and len(inner.args) == 1 and K.src(inner.func) in ("str", "six.text_type", "text_type"):
+                inner = inner.args[0]
+            if isinstance(inner, ast.BinOp) and isinstance(inner.op, ast.Add) and isinstance(inner.right, ast.Constant):
+                inner = inner.left
+            if isinstance(inner, ast.Name) and inner.id in params and not rebound:
+                ctx.hold(rule, con, K.rel(fn), c.lineno, "%s: `%s` is the parameter itself" % (what, K.src(a0)))
+                continue
+            text = K.src(e)
+            if rebound and isinstance(inner, ast.Name):
+                defs_ = [n_.value for n_ in own_nodes(fn.node) if isinstance(n_, ast.Assign) and any(isinstance(t_, ast.Name) and t_.id == inner.id for t_ in n_.targets)]
+                if defs_:
+                    text = K.src(defs_[-1])
+            shifting = [m for m in (".strip(", ".lstrip(", ".rstrip(", ".splitlines(", ".split(", ".replace(", ".expandtabs(", ".translate(", ".encode(", ".decode(", "dedent(", "normalize(", "re.sub(", "[") if m in text] or rebound
+            if shifting:
+                ctx.violate(rule, con, K.rel(fn), c.lineno, "%s: the text is transformed on the way (`%s`): %s" % (what, text[:80], consequence))
+            else:
+                raise AnalysisError("%s: %s passes `%s`, which is outside the recognised forms" % (rule, what, text[:80]))
+    ctx.floor(rule, "text hand-over calls", n_hops, 2)
+
+
 def run(ctx, idx):
     ctx.assume("PLY 3.11 facts (DESIGN A.2): a token's lineno is the lexer counter before its function runs; Lexer.input() does not reset the counter; p.lineno(i) of a nonterminal needs tracking=True; yacc.parse(lexer=None) uses the module-global last lexer")
     ctx.rule("C11.a", "In Parser.parse every path to the PLY parse call stores 1 into the lexer's line counter (or builds a fresh lexer); the call passes lexer= explicitly and tracking=True.")
@@ -419,6 +457,30 @@ def run(ctx, idx):
                 ctx.ob("C11.c", con, pmod.rel, n.lineno, k == 1, "line of the first symbol" if k == 1 else
                        "the node takes p.lineno(%s), the line of its symbol #%s, not of its first symbol: a construct spread over several lines is reported on a later line" % (k, k))
     ctx.floor("C11.c", "p.lineno(i) uses in grammar actions", n_ln, 5)
+    # a node built further down must not stand for a construct that started earlier: when a production puts p[k] (k > 1) bare into
+    # a pair / list it returns, and symbol k's own action is where the line-carrying node is built, the element carries the line of
+    # its k-th part (the value of `key: value` written on the next line), not the line it starts on
+    builders = set()
+    for pr in L.productions:
+        fn_ = pr.func
+        parg_ = fn_.args.args[-1].arg
+        if any(isinstance(n_, ast.Call) and isinstance(n_.func, ast.Attribute) and n_.func.attr in ("lineno", "linespan") and isinstance(n_.func.value, ast.Name) and n_.func.value.id == parg_ for n_ in ast.walk(fn_)):
+            builders.add(pr.lhs)
+    for pr in L.productions:
+        fn_ = pr.func
+        parg_ = fn_.args.args[-1].arg
+        if any(isinstance(n_, ast.Call) and isinstance(n_.func, ast.Attribute) and n_.func.attr in ("lineno", "linespan") for n_ in ast.walk(fn_)):
+            continue
+        for st_ in ast.walk(fn_):
+            if not (isinstance(st_, ast.Assign) and any(isinstance(t_, ast.Subscript) and isinstance(t_.value, ast.Name) and t_.value.id == parg_ and isinstance(t_.slice, ast.Constant) and t_.slice.value == 0 for t_ in st_.targets)):
+                continue
+            if not isinstance(st_.value, ast.Tuple):
+                continue
+            for el_ in st_.value.elts:
+                if isinstance(el_, ast.Subscript) and isinstance(el_.value, ast.Name) and el_.value.id == parg_ and isinstance(el_.slice, ast.Constant) and isinstance(el_.slice.value, int) and el_.slice.value > 1 \
+                        and el_.slice.value <= len(pr.rhs) and pr.rhs[el_.slice.value - 1] in builders:
+                    ctx.violate("C11.c", "%s::Parser.%s::element-line" % (pmod.rel, fn_.name), pmod.rel, st_.lineno,
+                                "`%s : %s` returns its symbol #%d (%s) as it comes, and the line-carrying node is built in %s's own action: the element that starts with symbol #1 then carries the line of symbol #%d - a value written on the line after its key is reported one line late" % (pr.lhs, " ".join(pr.rhs), el_.slice.value, pr.rhs[el_.slice.value - 1], pr.rhs[el_.slice.value - 1], el_.slice.value))
     # ------------------------------------------------------------------ d
     prog = idx.cls("mpilot.program", "Program")
     fs = prog.methods["from_source"]
@@ -431,6 +493,40 @@ def run(ctx, idx):
                 r = idx.resolve(f.module, c.func, f)
                 b = tables.ctor_bind(idx, r[1], c) or {}
                 ok = carries_line(b.get("lineno"), f)
+                if ok and q.endswith("arguments.Argument") and b.get("name") is not None and b.get("lineno") is not None:
+                    # the line of the argument node itself (`Name =` starts there), not of the value written after the `=`: with the
+                    # value on a later line the error would point one line too far down
+                    def _resolved(e_):
+                        """through plain and tuple-unpacking assignments of names assigned once in the function"""
+                        for _ in range(4):
+                            names_ = [x_ for x_ in ast.walk(e_) if isinstance(x_, ast.Name)]
+                            sub_ = {}
+                            for x_ in names_:
+                                defs_ = []
+                                for st_ in own_nodes(f.node):
+                                    if isinstance(st_, ast.Assign) and len(st_.targets) == 1:
+                                        t_ = st_.targets[0]
+                                        if isinstance(t_, ast.Name) and t_.id == x_.id:
+                                            defs_.append(st_.value)
+                                        elif isinstance(t_, ast.Tuple) and isinstance(st_.value, ast.Tuple) and len(t_.elts) == len(st_.value.elts):
+                                            for a_, b_ in zip(t_.elts, st_.value.elts):
+                                                if isinstance(a_, ast.Name) and a_.id == x_.id:
+                                                    defs_.append(b_)
+                                if len(defs_) == 1 and isinstance(defs_[0], (ast.Attribute, ast.Name)):
+                                    sub_[x_.id] = defs_[0]
+                            if not sub_:
+                                break
+
+                            class _S(ast.NodeTransformer):
+                                def visit_Name(self, n_):
+                                    return copy.deepcopy(sub_[n_.id]) if n_.id in sub_ and isinstance(n_.ctx, ast.Load) else n_
+                            e_ = _S().visit(copy.deepcopy(e_))
+                        return e_
+                    nm_src = K.src(_resolved(b["name"]))
+                    ln_src = K.src(_resolved(b["lineno"]))
+                    if nm_src.endswith(".name") and ln_src.endswith(".lineno") and ln_src != nm_src[:-5] + ".lineno" and ln_src.startswith(nm_src[:-5] + "."):
+                        ctx.violate("C11.d", "%s::Argument-line" % f.key, K.rel(f), c.lineno, "the argument `%s` is built with `%s`, the line of a part of it (its value), not `%s.lineno` where the argument starts: when the value is written on a later line than `Name =`, every error about the argument - and the line the command-line tool marks - is off" % (nm_src, ln_src, nm_src[:-5]))
+                        continue
                 ctx.ob("C11.d", "%s::%s-line" % (f.key, q.split(".")[-1]), K.rel(f), c.lineno, ok, "argument built with its node's line" if ok else "%s(...) is built without the line of its node: %s" % (q.split(".")[-1], K.src(c)[:80]))
                 if q.endswith("ListArgument"):
                     ll = b.get("list_linenos")
@@ -579,32 +675,4 @@ def run(ctx, idx):
         ctx.ob("C11.f", con, K.rel(cli), m.lineno, ok, why)
     # ------------------------------------------------------------------ g
     ctx.rule("C11.g", "The text reaches the lexer unchanged: Program.from_source hands its `source` parameter itself to Parser.parse, which hands its parameter itself to the PLY parser - no strip / splitlines / slicing in between, which would shift every reported line.")
-    hops = [(idx.func("mpilot.program", "Program.from_source"), "from_source -> Parser.parse"), (idx.func("mpilot.parser.parser", "Parser.parse"), "Parser.parse -> PLY parse")]
-    n_hops = 0
-    for fn, what in hops:
-        if fn is None:
-            raise AnalysisError("C11.g: %s vanished" % what)
-        params = [a.arg for a in fn.node.args.args]
-        calls = [n for n in own_nodes(fn.node) if isinstance(n, ast.Call) and isinstance(n.func, ast.Attribute) and n.func.attr == "parse" and (n.args or any(k.arg in ("input", "source") for k in n.keywords))]
-        for c in calls:
-            n_hops += 1
-            a0 = c.args[0] if c.args else next(k.value for k in c.keywords if k.arg in ("input", "source"))
-            e = K.expand(fn, a0)
-            con = "%s::text-passed-on-unchanged" % fn.key
-            rebound = [n for n in own_nodes(fn.node) if isinstance(n, ast.Name) and isinstance(n.ctx, ast.Store) and n.id in params]
-            # accepted: the parameter itself; str()/text_type() of it; parameter + constant suffix
-            inner = e
-            if isinstance(inner, ast.Call) and len(inner.args) == 1 and K.src(inner.func) in ("str", "six.text_type", "text_type"):
-                inner = inner.args[0]
-            if isinstance(inner, ast.BinOp) and isinstance(inner.op, ast.Add) and isinstance(inner.right, ast.Constant):
-                inner = inner.left
-            if isinstance(inner, ast.Name) and inner.id in params and not rebound:
-                ctx.hold("C11.g", con, K.rel(fn), c.lineno, "%s: `%s` is the parameter itself" % (what, K.src(a0)))
-                continue
-            text = K.src(e)
-            shifting = [m for m in (".strip(", ".lstrip(", ".splitlines(", ".split(", "dedent(", "[") if m in text] or rebound
-            if shifting:
-                ctx.violate("C11.g", con, K.rel(fn), c.lineno, "%s: the text is transformed on the way (`%s`): leading blank lines or line breaks removed there shift every line number reported afterwards away from the file" % (what, text[:80]))
-            else:
-                raise AnalysisError("C11.g: %s passes `%s`, which is outside the recognised forms" % (what, text[:80]))
-    ctx.floor("C11.g", "text hand-over calls", n_hops, 2)
+    text_reaches_lexer(ctx, idx, "C11.g", "leading blank lines or line breaks removed there shift every line number reported afterwards away from the file")
